@@ -110,6 +110,12 @@ def run(P, R):
             {tuple(f) for f in fm.at(ss[0])} == {('self.state_modes.is_master()', True)}
         R.check(r4, ok, '%s: the Master enters %s' % (q, state), 'reroute|%s|master' % q, u.loc(),
                 '%s does not call set_state(%s) exactly as Master' % (q, state))
+        # the order the XML-RPC accepted (from DISTRIBUTION on) is not silently refused by the transition table
+        for src in ('DISTRIBUTION', 'OPERATION', 'CONCILIATION'):
+            R.check(r4, state in fsm.transitions.get(src, ()), '%s -> %s is in _Transitions' % (src, state),
+                    'reroute|table|%s|%s' % (src, state), fsm.cls.mod.relpath, '_Transitions[%s] = %s does not hold %s: a '
+                    'restart / shutdown order accepted while the Master is in %s is dropped by set_state' %
+                    (src, sorted(fsm.transitions.get(src, ())), state, src))
         fw = [c for c in own_nodes(u.node) if isinstance(c, ast.Call) and call_text(c).endswith('.' + fwd)]
         ok = len(fw) == 1 and {tuple(f) for f in fm.at(fw[0])} == {('self.state_modes.is_master()', False),
                                                                     ('self.state_modes.master_identifier', True)} and \
